@@ -65,6 +65,9 @@ type Frame struct {
 	callOrd map[string]int
 	retVals []Val
 	srcMap  map[token.Pos]string
+	frameLo, frameHi string // position range of the element write being frame-checked
+	iters   map[*ssa.Range]string
+	lastIter string
 }
 
 type Cur struct {
@@ -277,6 +280,19 @@ func (fr *Frame) envAt(b *ssa.BasicBlock, idx int, st *State, phiMap map[*ssa.Ph
 	}
 	env.lookup = func(name string) (Val, bool) {
 		return fr.resolveAt(name, b, idx, st, phiMap)
+	}
+	env.visitedComp = func() string {
+		// the iterator of the innermost map-range loop around (b, idx): the last one whose Range dominates
+		best := ""
+		for rg, c := range fr.iters {
+			rb := rg.Block()
+			if rb == b || rb.Dominates(b) {
+				if best == "" || c > best {
+					best = c
+				}
+			}
+		}
+		return best
 	}
 	env.oldLookup = func(name string) (Val, bool) {
 		for i, p := range fr.fn.Params {
@@ -587,7 +603,7 @@ func (e *Engine) totalHavocG(st *State, keepGhosts bool) *State {
 // ------------------------------------------------------------------ function execution
 
 func (e *Engine) newFrame(fn *ssa.Function, prefix string) *Frame {
-	fr := &Frame{e: e, fn: fn, vals: map[ssa.Value]Val{}, sites: map[string][]defSite{}, ordinal: map[string]int{}, callOrd: map[string]int{}, prefix: prefix}
+	fr := &Frame{e: e, fn: fn, vals: map[ssa.Value]Val{}, sites: map[string][]defSite{}, ordinal: map[string]int{}, callOrd: map[string]int{}, prefix: prefix, iters: map[*ssa.Range]string{}}
 	fr.spec = e.specFor(fn)
 	return fr
 }
@@ -828,6 +844,18 @@ func (fr *Frame) enterLoop(li *loopInfo, ins []edgeIn) (string, *State) {
 			na := e.sc.fresh("alloc", "Int")
 			e.sc.assert("(>= " + na + " " + a + ")")
 			st.comps["alloc"] = na
+		}
+	}
+	// map iterations advanced inside the loop: their visited sets are arbitrary at the header
+	for _, bb := range blocks {
+		for _, in := range bb.Instrs {
+			if nx, ok := in.(*ssa.Next); ok {
+				if rg, ok := nx.Iter.(*ssa.Range); ok {
+					if c, has := fr.iters[rg]; has {
+						e.havocComp(st, c)
+					}
+				}
+			}
 		}
 	}
 	pm := map[*ssa.Phi]Val{}
@@ -1075,9 +1103,13 @@ func (fr *Frame) doStore(x *ssa.Store) {
 			target = ""
 		}
 	}
+	if a.Src != nil && a.Src.kind == "elem" {
+		fr.frameLo, fr.frameHi = a.Src.pos, "(+ "+a.Src.pos+" 1)"
+	}
 	for _, c := range sortedKeys(comps) {
 		fr.checkFrame(c, target, "store")
 	}
+	fr.frameLo, fr.frameHi = "", ""
 	fr.assertAtStore(a, v)
 	e.storeAt(fr.cur.st, a.T, a.Src, pt, v.T)
 }
@@ -1101,7 +1133,11 @@ func (fr *Frame) checkFrame(c, addr, what string) {
 			return
 		}
 		if addr != "" {
-			alts = append(alts, "(= "+addr+" "+m.addr+")")
+			eq := "(= " + addr + " " + m.addr + ")"
+			if m.lo != "" && fr.frameLo != "" {
+				eq = sAnd(eq, "(<= "+m.lo+" "+fr.frameLo+")", "(<= "+fr.frameHi+" "+m.hi+")")
+			}
+			alts = append(alts, eq)
 		}
 	}
 	if addr != "" && !strings.HasPrefix(c, "ghost$") {
@@ -1366,6 +1402,14 @@ func (fr *Frame) value(v ssa.Value) Val {
 		return fr.typeAssert(x)
 	case *ssa.Range:
 		a := fr.val(x.X)
+		if mt, ok := x.X.Type().Underlying().(*types.Map); ok {
+			// ghost set of keys already yielded by this iteration
+			e.sc.n++
+			c := e.comp(fmt.Sprintf("ghost$iter$%d", e.sc.n), "(Array "+e.sortOf(mt.Key())+" Bool)")
+			e.set(cur.st, c, "((as const (Array "+e.sortOf(mt.Key())+" Bool)) false)")
+			fr.iters[x] = c
+			fr.lastIter = c
+		}
 		return Val{T: a.T, Ty: x.X.Type()}
 	case *ssa.Next:
 		it := fr.val(x.Iter)
@@ -1381,6 +1425,17 @@ func (fr *Frame) value(v ssa.Value) Val {
 		dom, val := e.mapComps(mt)
 		k := fr.freshVal("next.k", mt.Key())
 		e.sc.assert(sImp(ok, fmt.Sprintf("(and (not (= %s 0)) (select (select %s %s) %s))", it.T, e.get(cur.st, dom), it.T, k.T)))
+		if rg, isR := x.Iter.(*ssa.Range); isR {
+			if c, has := fr.iters[rg]; has {
+				vis := e.get(cur.st, c)
+				ks := e.sortOf(mt.Key())
+				// the yielded key is new; when the iteration ends every key of the map has been yielded
+				fr.assumeHere(sImp(ok, "(not (select "+vis+" "+k.T+"))"))
+				fr.assumeHere(sImp(sNot(ok), fmt.Sprintf("(forall ((kk %s)) (! (=> (select (select %s %s) kk) (select %s kk)) :pattern ((select %s kk))))", ks, e.get(cur.st, dom), it.T, vis, vis)))
+				e.set(cur.st, c, sIte(ok, "(store "+vis+" "+k.T+" true)", vis))
+				fr.lastIter = c
+			}
+		}
 		vt := e.sc.define("next.v", e.sortOf(mt.Elem()), fmt.Sprintf("(select (select %s %s) %s)", e.get(cur.st, val), it.T, k.T))
 		if r := e.rangeOf(vt, mt.Elem()); r != "" {
 			e.sc.assert(r)
